@@ -360,7 +360,13 @@ impl Runner {
 
         let min_deisotope_mz = match &self.parameters.quant.tmt {
             Some(i) => match self.parameters.quant.tmt_settings.level {
-                2 => i.reporter_masses().last().map(|x| x * (1.0 + 20E-6)),
+                // the heaviest reporter, wherever it is listed (user-defined plexes need not be sorted)
+                2 => i
+                    .reporter_masses()
+                    .iter()
+                    .copied()
+                    .reduce(f32::max)
+                    .map(|x| x * (1.0 + 20E-6)),
                 _ => None,
             },
             None => None,
